@@ -291,7 +291,7 @@ func c20E2E(c *Ctx) {
 	if os.Getenv("VERIF_C20_RACE") != "" { // under the race detector everything is ~10x slower: smaller profiles
 		webFirst("e2e-webfirst-flamegraph", 600, 8, 0)
 		webFirst("e2e-webfirst-mixed", 400, 8, 1)
-		webFirst("e2e-webfirst-download", 3000, 8, 2)
+		webFirst("e2e-webfirst-download", 800, 6, 2)
 	} else {
 		webFirst("e2e-webfirst-flamegraph", 3000, 8, 0)
 		webFirst("e2e-webfirst-flamegraph", 3000, 8, 0)
